@@ -313,6 +313,125 @@ func main() {
 		o.Set("wal.openRotate", "wal/manager.go:openLatestSegment/rotateLocked", "resume-last/next-id", ok, "resume-last/next-id")
 	}
 
+	// ---------------------------------------------------------------- buffering / flush points (C13)
+	{
+		// switchSegmentLocked: flush the writer (guarded only by `m.writer != nil`), fsync and close
+		// the current segment BEFORE the target is opened / stat'ed / seeked; fresh writer at the end.
+		sw := mg.Func("Manager.switchSegmentLocked")
+		ok := sw != nil && sw.Body != nil && len(sw.Body.List) >= 3
+		order := ""
+		if ok {
+			src := mg.Src(sw.Body)
+			marks := []struct{ name, pat string }{
+				{"flush", "m.writer.Flush()"}, {"sync", "m.active.Sync()"}, {"close", "m.active.Close()"},
+				{"open", "m.cfg.FS.OpenFileHandle(path, flag, m.cfg.FileMode)"}, {"stat", "f.Stat()"},
+				{"seek", "f.Seek(0, io.SeekEnd)"}, {"writer", "m.writer = bufio.NewWriterSize(f, m.bufferSize)"}}
+			last := -1
+			var names []string
+			for _, mk := range marks {
+				i := strings.Index(src, mk.pat)
+				if i < 0 || i < last || strings.Count(src, mk.pat) != 1 {
+					ok = false
+					break
+				}
+				last = i
+				names = append(names, mk.name)
+			}
+			order = strings.Join(names, ",")
+			// the flush is the first statement, unconditional but for the nil guard
+			if ifs0, isIf := sw.Body.List[0].(*ast.IfStmt); !isIf || mg.Src(ifs0.Cond) != "m.writer != nil" ||
+				!strings.Contains(mg.Src(ifs0.Body), "m.writer.Flush()") {
+				ok = false
+			}
+			if ifs1, isIf := sw.Body.List[1].(*ast.IfStmt); !isIf || mg.Src(ifs1.Cond) != "m.active != nil" {
+				ok = false
+			}
+			ok = ok && mg.HasStmt(sw.Body, "m.activeSize = 0") && mg.HasStmt(sw.Body, "m.activeSize = size") &&
+				mg.HasStmt(sw.Body, "m.active = f") && mg.HasStmt(sw.Body, "m.activeID = id")
+		}
+		o.Set("wal.switchOrder", "wal/manager.go:switchSegmentLocked", order, ok, "flush,sync,close,open,stat,seek,writer")
+	}
+	{
+		// AppendRecords: per record ensureCapacity then EncodeRecord into m.writer; afterwards, iff
+		// SyncOnWrite, an unconditional Flush + fsync.  Sync(): unconditional Flush + fsync.
+		// Close(): Flush + fsync + close.  SwitchSegment/Rotate go through switchSegmentLocked.
+		ar := mg.Func("Manager.AppendRecords")
+		ok := ar != nil
+		if ok {
+			src := mg.Src(ar.Body)
+			i1 := strings.Index(src, "m.ensureCapacity(int64(totalRecordSize))")
+			i2 := strings.Index(src, "EncodeRecord(m.writer, rec.Type, payload)")
+			ok = i1 >= 0 && i2 > i1
+			found := false
+			for _, st := range ar.Body.List {
+				if is, isIf := st.(*ast.IfStmt); isIf && mg.Src(is.Cond) == "m.cfg.SyncOnWrite" {
+					b := mg.Src(is.Body)
+					j1 := strings.Index(b, "m.writer.Flush()")
+					j2 := strings.Index(b, "m.active.Sync()")
+					found = j1 >= 0 && j2 > j1 && len(is.Body.List) == 2
+				}
+			}
+			ok = ok && found
+			// statements of AppendRecords: lock, unlock, closed check, results, loop, sync-on-write, return
+			ok = ok && len(ar.Body.List) == 7
+		}
+		sy := mg.Func("Manager.Sync")
+		if sy != nil && sy.Body != nil {
+			src := mg.Src(sy.Body)
+			j1 := strings.Index(src, "m.writer.Flush()")
+			ok = ok && j1 >= 0 && mg.HasStmt(sy.Body, "return m.active.Sync()") && len(sy.Body.List) == 5
+		} else {
+			ok = false
+		}
+		cl := mg.Func("Manager.Close")
+		if cl != nil && cl.Body != nil {
+			src := mg.Src(cl.Body)
+			j1 := strings.Index(src, "m.writer.Flush()")
+			j2 := strings.Index(src, "m.active.Sync()")
+			ok = ok && j1 >= 0 && j2 > j1
+		} else {
+			ok = false
+		}
+		ro := mg.Func("Manager.Rotate")
+		ssw := mg.Func("Manager.switchSegment")
+		ok = ok && mg.HasStmt(body(ro), "return m.rotateLocked()") && mg.HasStmt(body(ssw), "return m.switchSegmentLocked(id, truncate)")
+		o.Set("wal.flushPoints", "wal/manager.go:AppendRecords/Sync/Close", "append:sow-flush+sync,sync:flush+sync,close:flush+sync", ok,
+			"append:sow-flush+sync,sync:flush+sync,close:flush+sync")
+	}
+	{
+		// no bound on the record length at replay/verify: the iterators are used through
+		// Next/Length/Type/Record/Err/Close only, Next decodes with DecodeRecord(rs.reader), and
+		// DecodeRecord has exactly three ErrPartialRecord exits at most (header, body, crc)
+		ri := o.Load("wal/record_iterator.go")
+		nx := ri.Func("RecordIterator.Next")
+		ok := nx != nil && strings.Contains(ri.Src(nx.Body), "DecodeRecord(rs.reader)")
+		allowed := map[string]bool{"reIter.Next": true, "reIter.Length": true, "reIter.Type": true, "reIter.Record": true, "reIter.Err": true, "reIter.Close": true}
+		for _, fn := range []*ast.FuncDecl{rf, vs} {
+			if fn == nil {
+				ok = false
+				continue
+			}
+			for _, c := range mg.Calls(fn.Body) {
+				if strings.HasPrefix(c, "reIter.") && !allowed[c] {
+					ok = false
+				}
+			}
+		}
+		if dec != nil && dec.Body != nil {
+			n := strings.Count(rec.Src(dec.Body), "utils.ErrPartialRecord")
+			ok = ok && n >= 2 && n <= 3
+			// every `length` comparison in DecodeRecord is the `length == 0` test
+			for _, c := range rec.Comparisons(dec.Body) {
+				if (c.X == "length" || c.Y == "length") && !(c.X == "length" && c.Y == "0" && c.Op == "eq") {
+					ok = false
+				}
+			}
+		} else {
+			ok = false
+		}
+		o.Set("wal.recordBound", "wal/record.go:DecodeRecord, wal/manager.go:replayFile/verifySegment", "none", ok, "none")
+	}
+
 	// ---------------------------------------------------------------- kv/entry_codec.go, kv/const.go
 	ec := o.Load("kv/entry_codec.go")
 	{
